@@ -747,9 +747,15 @@ impl Connection {
 
                 // The congestion check above only runs when a new datagram is started. If this
                 // datagram was started by a packet that isn't ack-eliciting (e.g. an Initial or
-                // Handshake ACK), ack-eliciting data coalesced behind it must still respect the
-                // congestion window.
-                if ack_eliciting && !close && self.spaces[space_id].loss_probes == 0 {
+                // Handshake ACK), application data coalesced behind it must still respect the
+                // congestion window. Handshake CRYPTO data is deliberately left alone: a client's
+                // first Handshake packet is what discards its Initial packets from flight, so
+                // holding it back could stall the handshake.
+                if space_id == SpaceId::Data
+                    && ack_eliciting
+                    && !close
+                    && self.spaces[space_id].loss_probes == 0
+                {
                     let untracked_bytes = match &builder_storage {
                         Some(builder) => buf_capacity - builder.partial_encode.start,
                         None => buf_capacity - buf.len(),
